@@ -300,7 +300,13 @@ def run_shard(ctx):
             acc.count('internal_error_is_C02')
             continue
         if not rec.error_calls:
+            # rejected by a check inside a grammar action, which raises ParsingException itself: the reporter never runs, the message has
+            # no source line and no caret.  Listed by mechanism (C19-F8) with the checks that exist today; another one is reported.
             acc.count('action_rejections_no_location')
+            c_ = monitors.classify_exception(exc)
+            mclass = re.sub(r"[`'\"].*", '', re.sub(r'\d+', 'N', str(exc).split('\n')[0])).strip()[:48]
+            acc.fail({'defect': 'rejected-without-location', 'raised_in': f"{c_['file'].split('/')[-1]}:{c_['func']}", 'message_class': mclass},
+                     {'text': text, 'message': str(exc)[:300]})
             continue
         res = judge(text, rec, exc)
         if isinstance(res, list):
